@@ -948,6 +948,7 @@ func ruleMapLookupVerified(r *Report) {
 	const rule = "map-lookup-verified"
 	r.Rule(rule, 2, "MapKeyIndex.Get and Contains trust a map hit only after comparing the stored key with the requested key (bytes.Equal / bytes.Compare on the key parameter), or delegate to the slice index")
 	p := r.P
+	ruleMapFallbackScope(r)
 	for _, k := range []string{"sstables.MapKeyIndex.Get", "sstables.MapKeyIndex.Contains"} {
 		fn := r.NeedFunc(rule, k)
 		if fn == nil {
